@@ -364,7 +364,7 @@ func main() {
 		w.Emit(e.runParse([]byte(s)))
 	}
 
-	n := f.N(14000, 400000)
+	n := f.N(10000, 400000)
 	for i := 0; i < n; i++ {
 		s := genString(r)
 		w.Emit(e.runParse(s))
